@@ -84,8 +84,29 @@ WithFields(pl, fs, val8) == IF fs = {} THEN pl ELSE LET f == CHOOSE x \in fs : T
 JointBoundary(kind, pl) ==
     LET f == CHOOSE x \in Wide(kind) : TRUE IN Boundary(FieldValue(pl, f[1], f[2], f[3]))
 
+\* Entries with long labels: a guard that bounds the announced number of entries ONCE by (remaining bytes / fixed part of an entry)
+\* counts the label bytes of the entries that are there as room for entries that are not.  The sample's labels are 30 bytes each
+\* (two of them outweigh the fixed parts of two more entries); the count announces 0 .. 3 entries more than are present and the
+\* payload is cut at every length - in particular exactly behind the last entry that is present, where the next label-length byte
+\* would be the first byte beyond the buffer.
+LabelKinds == {"quick_cues2", "quick_cues1", "loops2", "loops1"}
+L30(k) == [j \in 1 .. 30 |-> 65 + ((k + j) % 26)]
+HeavySample(kind) ==
+    LET sm == Sample(kind) IN
+    CASE kind = "loops2" -> [sm EXCEPT !.loops = [k \in DOMAIN sm.loops |-> [sm.loops[k] EXCEPT !.label = L30(k)]]]
+      [] kind = "quick_cues2" -> [sm EXCEPT !.cues = [k \in DOMAIN sm.cues |-> [sm.cues[k] EXCEPT !.label = L30(k)]]]
+      [] kind = "loops1" -> [sm EXCEPT !.loops = [k \in DOMAIN sm.loops |-> <<[sm.loops[k][1] EXCEPT !.label = L30(k)]>>]]
+      [] kind = "quick_cues1" -> [sm EXCEPT !.cues = [k \in DOMAIN sm.cues |-> IF sm.cues[k] = <<>> THEN <<>> ELSE <<[sm.cues[k][1] EXCEPT !.label = L30(k)]>>]]
+HeavyInputs(kind) ==
+    IF kind \notin LabelKinds THEN {}
+    ELSE LET hp == Enc(kind, HeavySample(kind))
+             f == CHOOSE x \in CountFields(kind) : x[2] = 8
+             fit == FieldValue(hp, f[1], f[2], f[3]) IN
+         {SubSeq(WithField(hp, f[1], 8, f[3], BEn(c, 8)), 1, n) : c \in fit .. fit + 3, n \in 9 .. Len(hp)}
+
 Inputs(kind) ==
     LET pl == Payload(kind) IN
+       HeavyInputs(kind) \cup
        (IF Cardinality(Wide(kind)) >= 2
         THEN {WithFields(pl, Wide(kind), b) : b \in JointBoundary(kind, pl)}
              \cup {SubSeq(WithFields(pl, Wide(kind), b), 1, n) : b \in JointBoundary(kind, pl), n \in {Len(pl) - 2, Len(pl) - 1}}
